@@ -336,11 +336,111 @@ def lock_order_edges(tree):
     return sorted(o.edges)
 
 
+# ------------------------------------------------------------------------------------- acquire sites
+
+def _appended_list(stmts):
+    """the locked-identifier list some statement of the block (mode sections looked into) appends to,
+    with the appended variable: (list, var) or None"""
+    for s in stmts:
+        for n in ast.walk(s):
+            if isinstance(n, ast.Call) and isinstance(n.func, ast.Attribute) and n.func.attr == "append":
+                obj = _self_attr(n.func.value)
+                if obj is not None and _is_locked_list(obj) and len(n.args) == 1:
+                    return _base(obj), _var(n.args[0])
+    return None
+
+
+def _removed_lists(stmts, acquirers, releasers):
+    """(list, var) pairs some statement of the block releases: inline `remove`, or a call of a release method"""
+    out = set()
+    for s in stmts:
+        for n in ast.walk(s):
+            if isinstance(n, ast.Call) and isinstance(n.func, ast.Attribute):
+                obj = _self_attr(n.func.value)
+                if n.func.attr == "remove" and obj is not None and _is_locked_list(obj) and len(n.args) == 1:
+                    out.add((_base(obj), _var(n.args[0])))
+                m = _self_attr(n.func)
+                if m in releasers and len(n.args) == 1:
+                    out.add((releasers[m], _var(n.args[0])))
+    return out
+
+
+def acquire_sites(tree):
+    """[(function, list, variable, guard)] for every place where a method other than the acquire methods
+    themselves claims an identifier: a call of an acquire method, or an inline acquire section.
+    guard = 'finally-of-enclosing-try'  the statement lies in the body of a `try` whose `finally` releases
+                                         the same identifier of the same list
+            'finally-of-next-try'       the very next statement is such a `try`
+            'none'                      neither: an exception (or an early exit) in between leaks the claim"""
+    cls = _class_def(tree)
+    if cls is None:
+        return None
+    acquirers, releasers = {}, {}
+    for fn in cls.body:
+        if isinstance(fn, ast.FunctionDef):
+            ap = _appended_list(fn.body)
+            if fn.name.startswith("_synchronize_") and ap:
+                acquirers[fn.name] = ap[0]
+            if fn.name.startswith("_release_"):
+                for n in ast.walk(fn):
+                    if isinstance(n, ast.Call) and isinstance(n.func, ast.Attribute) and n.func.attr == "remove":
+                        obj = _self_attr(n.func.value)
+                        if obj is not None and _is_locked_list(obj):
+                            releasers[fn.name] = _base(obj)
+    out = []
+
+    def claim_of(stmt):
+        """(list, var) if the statement is a claim"""
+        if isinstance(stmt, ast.Expr) and isinstance(stmt.value, ast.Call):
+            m = _self_attr(stmt.value.func)
+            if m in acquirers and len(stmt.value.args) == 1:
+                return acquirers[m], _var(stmt.value.args[0])
+        if isinstance(stmt, ast.If) and _is_mode_test(stmt.test):
+            return _appended_list(stmt.body) or _appended_list(stmt.orelse)
+        if isinstance(stmt, ast.With):
+            return _appended_list(stmt.body)
+        return None
+
+    def walk(fname, stmts, enclosing):
+        """enclosing: set of (list, var) released by the finally blocks of the enclosing try statements"""
+        for idx, st in enumerate(stmts):
+            c = claim_of(st)
+            if c is not None:
+                nxt = stmts[idx + 1] if idx + 1 < len(stmts) else None
+                if c in enclosing:
+                    g = "finally-of-enclosing-try"
+                elif isinstance(nxt, ast.Try) and c in _removed_lists(nxt.finalbody, acquirers, releasers):
+                    g = "finally-of-next-try"
+                else:
+                    g = "none"
+                out.append((fname, c[0], c[1], g))
+                continue
+            if isinstance(st, ast.Try):
+                rel = _removed_lists(st.finalbody, acquirers, releasers)
+                walk(fname, st.body, enclosing | rel)
+                for h in st.handlers:
+                    walk(fname, h.body, enclosing)
+                walk(fname, st.orelse, enclosing)
+                walk(fname, st.finalbody, enclosing)
+            elif isinstance(st, (ast.If, ast.For, ast.While)):
+                walk(fname, st.body, enclosing)
+                walk(fname, st.orelse, enclosing)
+            elif isinstance(st, ast.With):
+                walk(fname, st.body, enclosing)
+            elif isinstance(st, (ast.FunctionDef, ast.AsyncFunctionDef)):
+                walk(fname + "." + st.name, st.body, set())
+
+    for fn in cls.body:
+        if isinstance(fn, ast.FunctionDef) and fn.name not in acquirers and fn.name != "__init__":
+            walk(fn.name, fn.body, set())
+    return out
+
+
 def extract(src):
     tree = ast.parse(src)
     mp, th = init_tables(tree)
     return {"sections": sections(tree), "init_mp": mp, "init_th": th, "mode_flag": mode_flag(tree),
-            "edges": lock_order_edges(tree)}
+            "edges": lock_order_edges(tree), "sites": acquire_sites(tree)}
 
 
 if __name__ == "__main__":
